@@ -9,6 +9,14 @@ For every table of the C12 enumerator (smaller budget: two serif calls per case)
     (relational_common.textbook over the hand-grouped rows); hence rows of one group agree;
   * the input is not modified.
 Output columns are located by their documented names ('v_<fn>', the apply dict key).
+The enumerator includes (relational_common.extra_agg_blocks): keys that differ but collide in hash,
+over=[] (zero partition keys: one whole-table partition - window keeps the row count and gives
+every row the grand total, consistent with aggregate), bool and all-None value columns with the
+result-dtype check, and groups of exactly one row (a None value gives sum 0, count 0, others None,
+as in aggregate).  Failure keys of the zero-key / hash-colliding families use the call sites
+'window-zero-keys' / 'window-hash-colliding-keys'.
+Histories (op 'repeat', see relational_common.repeat_cases) and stdev precision against an exact
+Fraction reference (op 'precision') are run for window() as C12 runs them for aggregate().
 """
 from relational_common import *  # noqa
 
@@ -18,13 +26,47 @@ OP = 'window'
 
 def cases(tier, seed):
     yield from agg_cases(tier, OP, heavy=True)
+    yield from repeat_cases(tier, OP, variants=['ext', 'view-name'] if tier == 'quick' else None)
+    yield from precision_cases(tier)
 
 
 def descr_of(case):
     return f"window(over={case['mode']} x{case['nk']}, aggs={case['aggs']}, apply={case['apply']}) on rows(keys..., v)={case['rows']}"
 
 
+def eval_precision(case):
+    fails = []
+    vals = case['vals']
+    keys, grows = precision_groups(case)
+    descr = f"stdev of {vals!r} ({case['family']}, {case['layout']})"
+    per_group = [exact_stdev([vals[i] for i in rows]) for rows in grows]
+    want = [None] * len(vals)
+    for g, rows in enumerate(grows):
+        for i in rows:
+            want[i] = per_group[g]
+    try:
+        t = Table([Vector(list(keys), name='g'), Vector(list(vals), name='v')])
+    except Exception as e:
+        return [Fail(f'{PID}:setup:raises:{type(e).__name__}', f'{descr}: building the table raised {e!r}', None, repr(e))]
+    try:
+        res = t.window(over='g', stdev_over='v')
+        col = out_column(res, 'v_stdev')
+        m = truthful(res)
+        if m:
+            fails.append(Fail(f'C03:{OP}:truthful', f'{descr}: {m}', None, m))
+        if col is None or len(col) != len(want) or not all(precise(a, b, vals) for a, b in zip(col, want)):
+            fails.append(Fail(f'{PID}:{OP}:stdev:precision', f'{descr}: window(stdev_over) = {col!r}; exact sample standard deviation of each '
+                                                              f'row\'s group = {want!r} (relative tolerance {REL_TOL})', want, col, f'{PID}:{OP}:stdev:elem'))
+    except Exception as e:
+        fails.append(Fail(f'{PID}:{OP}:stdev:precision-raises', f'{descr}: window(stdev_over) raised {e!r}', want, repr(e), f'{PID}:{OP}:stdev:elem'))
+    return fails
+
+
 def evaluate(case):
+    if case['op'] == 'repeat':
+        return eval_repeat(PID, case)
+    if case['op'] == 'precision':
+        return eval_precision(case)
     descr = descr_of(case)
     try:
         s = AggSetup(case)
@@ -32,20 +74,21 @@ def evaluate(case):
         return [Fail(f'{PID}:setup:raises:{type(e).__name__}', f'{descr}: building the table raised {e!r}', None, repr(e))]
     before = s.snapshot()
     fails = []
+    site = agg_site(OP, case)
     try:
         res = s.T.window(s.over, **s.kwargs)
     except Exception as e:
-        return [Fail(f'{PID}:{OP}:raises:{type(e).__name__}', f'{descr}: raised {e!r}', None, repr(e), f'{PID}:{OP}:post')]
+        return [Fail(f'{PID}:{site}:raises:{type(e).__name__}', f'{descr}: raised {e!r}', None, repr(e), f'{PID}:{OP}:post')]
     try:
-        _check(case, s, res, fails, descr)
+        _check(case, s, res, fails, descr, site)
     except Exception as e:      # malformed result -> failure, never a harness crash
-        fails.append(Fail(f'{PID}:{OP}:malformed-result', f'{descr}: result could not be read: {e!r}', None, repr(e)))
+        fails.append(Fail(f'{PID}:{site}:malformed-result', f'{descr}: result could not be read: {e!r}', None, repr(e)))
     if s.snapshot() != before:
-        fails.append(Fail(f'{PID}:{OP}:input-modified', f'{descr}: the table or a key vector changed', before, s.snapshot()))
+        fails.append(Fail(f'{PID}:{site}:input-modified', f'{descr}: the table or a key vector changed', before, s.snapshot()))
     return fails
 
 
-def _check(case, s, res, fails, descr):
+def _check(case, s, res, fails, descr, OP=OP):
     nk, n = s.nk, len(s.keys)
     m = truthful(res)
     if m:
@@ -101,6 +144,8 @@ def _check(case, s, res, fails, descr):
             cls = 'value' if per_row_consistent else 'rows-of-one-group-differ'
             fails.append(Fail(f'{PID}:{OP}:{agg_name}:{cls}', f'{descr}: {colname} is not the group value expanded to the rows', want, col,
                               f'{PID}:{OP}:{agg_name}:elem'))
+        elif case.get('dtypes') and agg_name != 'apply':
+            check_result_dtype(PID, OP, agg_name, named_column(res, colname), want, fails, descr)
         # (b) aggregate() joined back on the key
         if agg is not None:
             acol = out_column(agg, colname)
@@ -121,7 +166,10 @@ if __name__ == '__main__':
     main(PID, cases, evaluate,
          rule='every table of each block in `bound`: window(...) has the input row count and order, key columns unchanged, and each '
               'aggregate / apply column equals (a) the hand oracle expanded to rows and (b) aggregate(...) with the same arguments '
-              'looked up through each row\'s key tuple; input unchanged. distinct = distinct (nk, mode, rows, groups, interleaved, '
+              'looked up through each row\'s key tuple; input unchanged; plus call histories on one table object and stdev of '
+              'large-offset values vs an exact Fraction reference (relative 1e-9), as in C12. distinct = distinct (nk, mode, rows, groups, interleaved, '
               'all-None group, None key, aggs, apply) signatures',
-         bound=lambda tier: agg_bound(tier, heavy=True),
+         bound=lambda tier: dict(agg_bound(tier, heavy=True),
+                                 repeat_variants=['ext', 'view-name'] if tier == 'quick' else REPEAT_VARIANTS,
+                                 precision_families=[f for f, _ in PRECISION_FAMILIES], precision_len=[2, 4 if tier == 'quick' else 5]),
          nontrivial=nontrivial)
